@@ -68,6 +68,7 @@ def check(an, rep, tier):
     if wl is not None:
         last_store = None
         keys = {}
+        conditional = set()
         for i, st in enumerate(wl.body):
             for t, v in paths.stores_in(st):
                 if isinstance(t, ast.Subscript) and \
@@ -79,6 +80,18 @@ def check(an, rep, tier):
                     uses_y = any(isinstance(x, ast.Name) and x.id == res_name
                                  for x in ast.walk(v))
                     keys[sk[1]] = (i, uses_y, v)
+            # a refresh nested under a test of the sweep body (not inside a
+            # half-sweep loop) happens only sometimes: the value is stale on
+            # the other path
+            if isinstance(st, ast.If):
+                for sub_ in ast.walk(st):
+                    for t, v in paths.stores_in(sub_):
+                        sk = paths.subscript_key(t)
+                        if sk and sk[0] == 'info' and \
+                                sk[1] in ('r', 'e', 'e_vld') and \
+                                not any(isinstance(x, ast.Return)
+                                        for x in ast.walk(st)):
+                            conditional.add(sk[1])
         ok = last_store is not None and set(keys) == {'r', 'e', 'e_vld'} and \
             all(i > last_store and u for i, u, _ in keys.values())
         e_expr = keys.get('e', (0, 0, None))[2]
@@ -92,6 +105,8 @@ def check(an, rep, tier):
         stale = last_store is not None and any(
             (i <= last_store or not u) for i, u, _ in keys.values())
         if e_expr is not None and not yold_ok:
+            stale = True
+        if conditional:
             stale = True
         rep.add('P-fresh-info', 'cross.cross', 'end of sweep: info r / e / '
                 'e_vld from the final Y', 'ok' if ok and yold_ok else
